@@ -130,7 +130,11 @@ func (s *Session) execDeterminism(line string) (obs string) {
 					obs = "panic"
 				}
 			}()
-			obs = s.W.FormatCall(s.W.Call(c2))
+			r := s.W.Call(c2)
+			obs = s.W.FormatCall(r)
+			if r != nil && r.InputChanged != "" {
+				s.C.Report("C13", line, "the call modified its input structure: field(s) "+r.InputChanged+" of the ContractCallInput differ after the call")
+			}
 		}()
 		switch {
 		case !bytes.Equal(buf, pristine):
